@@ -60,3 +60,13 @@ package linker
 //@ hashed legal-comments C18: func=(*linkerContext).generateIsolatedHash ; in=linker ; sink=hashWriteLengthPrefixed:1,hashWriteUint32:1,Write:0 ; scenario=legal_comments_hash ; must=chunkInfo.externalLegalComments>hashWriteLengthPrefixed
 //@ unguarded visit-every-import C18: func=(*linkerContext).appendIsolatedHashesForImportedChunks ; in=linker ; site=call appendIsolatedHashesForImportedChunks ; allow=false:visited[chunkIndex]==visitedKey ; argpath=2:c.chunks[chunkIndex].crossChunkImports[*].chunkIndex
 //@ flow asset-path-is-relative C18: func=(*linkerContext).appendIsolatedHashesForImportedChunks ; in=linker ; site=call hashWriteLengthPrefixed ; argpath=1:call ReplaceAll(call Rel(c.fs,c.options.AbsOutputDir,*.InputFile.AdditionalFiles[*].AbsPath)#0,*
+
+// ----------------------------------------------------------------------------------------------
+// C19: the metafile's byte counts are the lengths of what is actually emitted.
+//  - the "bytes" of a chunk is len() of the very value that becomes the output file's contents (computed
+//    after the source-map comment has been appended);
+//  - bytesInOutput is computed with paths relative to the importing chunk's own directory, exactly like the
+//    substitution that produces the final text.
+//@ flow chunk-bytes-is-final-length C19: func=(*linkerContext).generateChunksInParallel ; in=linker ; site=dyncall jsonMetadataChunkCallback ; argpath=0:call len(call Done(outputContentsJoiner))
+//@ flow chunk-contents-is-final-output C19: func=(*linkerContext).generateChunksInParallel ; in=linker ; site=store OutputFile.Contents ; valuepath=call Done(outputContentsJoiner)|phi:outputSourceMap|*outputSourceMap*|*externalLegalComments*
+//@ flow count-relative-to-own-dir C19: func=(*linkerContext).accurateFinalByteCount ; in=linker ; site=call pathBetweenChunks ; argpath=1:chunkFinalRelDir
